@@ -401,3 +401,53 @@ def k_arith(ctx, prog):
         "as_u16: for the sum 0x%04x the emitted checksum is 0x%04x, the one's complement is 0x%04x" % bad if bad else
         "as_u16 = %s: the one's complement of the sum (0x0000 and 0xffff both denote zero)" % S.term_str(ta))
     ctx.floor("K-ARITH", 4)
+    # every other writer of the accumulator must be a congruence-preserving reduction (a "fold") of one wider sum
+    adt = prog.adt("utility::Checksum")
+    for b in prog.bodies.values():
+        if b.key in (au.key,) or b.derived or "::tests" in b.key:
+            continue
+        ws = [(bb, st) for bb, st in K.assigns_to_field(b, "utility::Checksum", ("0",))]
+        for bb, st in ws:
+            key = "K-ARITH:fold@%s" % b.key.rsplit("::", 1)[-1]
+            # start at the highest dominator of the write from which no loop is reachable (the loop-free tail)
+            bg = cfg(b)
+            start = bb
+            for d_ in bg.dom_chain(bb):
+                if any(bg.in_loop(x) for x in bg.reachable_from(d_)):
+                    break
+                start = d_
+            try:
+                t, _ = S.extract_from(prog, b, start)
+            except S.Unsupported as e:
+                ctx.require(False, "K-ARITH: writer of the accumulator in %s cannot be reduced to a formula (%s)" % (b.pretty, e))
+            val = None
+            if t[0] == "state":
+                for p_, v in t[2]:
+                    root, fs = S.with_fields(v) if v[0] == "with" else (None, {})
+                    if "0" in fs:
+                        val = fs["0"]
+            leaves = S.atoms(val, lambda x: x[0] == "local") if val is not None else []
+            if val is None or len(leaves) != 1:
+                ctx.require(False, "K-ARITH: unrecognised update of the checksum accumulator in %s (%s): no verdict" % (b.pretty, S.term_str(val) if val else "?"))
+            leaf = leaves[0]
+            w = S.INT_WIDTH.get(b.local_tystr(leaf[1]), 32)
+            cs = {0, 1, 0xfffe, 0xffff, 0x10000, 0x10001, 0x1fffd, 0x1fffe, 0x1ffff, 0x20000, 0x2fffd, 0xfffe0001, 0xffff0000, 0xfffeffff, 0xffffffff, 0x12345678}
+            _consts_in(val, cs)
+            cs = sorted({c % (1 << w) for c in cs} | {(c + d) % (1 << w) for c in cs for d in (-1, 1)})
+            bad = None
+            for x in cs:
+                try:
+                    got = int(S.concrete(val, {leaf: x}, w))
+                except S.Panics as e:
+                    bad = (x, "panics (%s)" % e)
+                    break
+                except KeyError as e:
+                    ctx.require(False, "K-ARITH: fold in %s uses an operation the evaluator does not model (%s)" % (b.pretty, S.term_str(e.args[0])[:80]))
+                if not (0 <= got < M and got % 0xffff == x % 0xffff and (got != 0 or x == 0)):
+                    bad = (x, "0x%04x" % got)
+                    break
+            if bad:
+                ctx.bad("K-ARITH", key, st[3], "%s reduces the wide sum 0x%x to %s, which is not its one's-complement value 0x%04x: a carry out of the fold is dropped (fold until no carry remains)" % (
+                    b.pretty.rsplit("::", 1)[-1], bad[0], bad[1], (bad[0] % 0xffff) or (0xffff if bad[0] else 0)))
+            else:
+                ctx.ok("K-ARITH", key, st[3], "accumulator := %s is a one's-complement reduction of the wide sum (all %d critical points)" % (S.term_str(val), len(cs)))
